@@ -11,7 +11,7 @@ class C07(ModelCheck):
     focus = ('time_split',)
     kinds = KINDS
     rule = ('case = program with time_split (active/inactive present or None, closing_mapper present or None, include_closing_item both ways, '
-            'integer ticks or datetime/timedelta) at top level or under group_by, x party scripts whose delays are drawn from '
+            'integer ticks, datetime/timedelta or numpy timestamps; time-outs incl. zero; closing_mapper also as a callable object with a false truth value) at top level or under group_by, x party scripts whose delays are drawn from '
             '{0, 1, timeout-1, timeout, timeout+1, active-inactive, ...} and resolved by the seeded scheduler on the virtual clock that stamps the '
             'items; the session model (expiry test with >= first, otherwise closing item) is compared on the non-empty windows per key: item '
             'lists, and the close event of each. non-trivial: >= 3 events and >= 2 windows; distinct = distinct (program, schedule)')
